@@ -169,32 +169,36 @@ def build_tools():
 JOB_TIMEOUT = [240]
 
 def plan(tier, seed):
-    """list of (name, profile-binary, args) trace jobs"""
+    """list of (name, profile, binary, args) trace jobs"""
     JOB_TIMEOUT[0] = 240 if tier == 'quick' else 2400
     jobs = []
     for f in sorted(glob.glob(os.path.join(ROOT, 'corpus', '*.trace'))):
         b = os.path.basename(f)[:-6]
-        jobs.append(('corpus-%s-dbg' % b, 'debug', ['replay', f]))
-        jobs.append(('corpus-%s-rel' % b, 'release', ['replay', f]))
+        jobs.append(('corpus-%s-dbg' % b, 'debug', 'cache_trace', ['replay', f]))
+        jobs.append(('corpus-%s-rel' % b, 'release', 'cache_trace', ['replay', f]))
     if tier == 'quick':
-        jobs += [('mix-dbg', 'debug', ['gen', str(seed), '250', '60', 'mix']),
-                 ('mix-rel', 'release', ['gen', str(seed + 1), '500', '60', 'mix']),
-                 ('big-rel', 'release', ['gen', str(seed + 2), '16', '500', 'big']),
-                 ('forget-rel', 'release', ['gen', str(seed + 3), '150', '40', 'forget'])]
+        jobs += [('mix-dbg', 'debug', 'cache_trace', ['gen', str(seed), '250', '60', 'mix']),
+                 ('mix-rel', 'release', 'cache_trace', ['gen', str(seed + 1), '500', '60', 'mix']),
+                 ('big-rel', 'release', 'cache_trace', ['gen', str(seed + 2), '16', '500', 'big']),
+                 ('forget-rel', 'release', 'cache_trace', ['gen', str(seed + 3), '150', '40', 'forget']),
+                 ('panic-dbg', 'debug', 'panic_trace', [str(seed), '10', '6', '16']),
+                 ('panic-rel', 'release', 'panic_trace', [str(seed + 1), '14', '9', '16'])]
     else:
-        for i in range(12):
-            jobs.append(('mix-rel-%d' % i, 'release', ['gen', str(seed * 100 + i), '4000', '80', 'mix']))
+        for i in range(10):
+            jobs.append(('mix-rel-%d' % i, 'release', 'cache_trace', ['gen', str(seed * 100 + i), '4000', '80', 'mix']))
         for i in range(4):
-            jobs.append(('mix-dbg-%d' % i, 'debug', ['gen', str(seed * 100 + 20 + i), '1500', '80', 'mix']))
-            jobs.append(('big-rel-%d' % i, 'release', ['gen', str(seed * 100 + 40 + i), '120', '800', 'big']))
-            jobs.append(('forget-rel-%d' % i, 'release', ['gen', str(seed * 100 + 60 + i), '2000', '40', 'forget']))
+            jobs.append(('mix-dbg-%d' % i, 'debug', 'cache_trace', ['gen', str(seed * 100 + 20 + i), '1500', '80', 'mix']))
+            jobs.append(('big-rel-%d' % i, 'release', 'cache_trace', ['gen', str(seed * 100 + 40 + i), '120', '800', 'big']))
+            jobs.append(('forget-rel-%d' % i, 'release', 'cache_trace', ['gen', str(seed * 100 + 60 + i), '2000', '40', 'forget']))
+            jobs.append(('panic-rel-%d' % i, 'release', 'panic_trace', [str(seed * 100 + 80 + i), '120', '10', '40']))
+            jobs.append(('panic-dbg-%d' % i, 'debug', 'panic_trace', [str(seed * 100 + 90 + i), '60', '8', '40']))
     return jobs
 
 def run_job(job, rundir, variant='fixed'):
-    name, prof, args = job
+    name, prof, binary, args = job
     stream = os.path.join(rundir, name + '.stream')
     outp = os.path.join(rundir, name + '.model')
-    exe = os.path.join(CACHE, 'target', prof, 'cache_trace')
+    exe = os.path.join(CACHE, 'target', prof, binary)
     class _R: pass
     with open(stream, 'w') as f:
         try:
@@ -203,7 +207,7 @@ def run_job(job, rundir, variant='fixed'):
             rc = _R(); rc.returncode = -999; rc.stderr = b'timed out (the operation did not return: hang / non-terminating loop)'
     err = ''
     if rc.returncode != 0:
-        err = 'CRASH cache_trace %s exited with %d (negative = killed by that signal): %s' % (' '.join(args), rc.returncode, rc.stderr.decode(errors='replace')[-300:])
+        err = 'CRASH ' + binary + ' %s exited with %d (negative = killed by that signal): %s' % (' '.join(args), rc.returncode, rc.stderr.decode(errors='replace')[-300:])
     with open(stream) as fi, open(outp, 'w') as fo:
         rc2 = subprocess.run([os.path.join(ROOT, 'bin', 'modelrun'), variant], stdin=fi, stdout=fo, stderr=subprocess.PIPE, timeout=3000)
     if rc2.returncode != 0:
@@ -280,20 +284,25 @@ def extract_trace(stream, trace_idx):
     return out
 
 def comp_table(cfg):
-    """component -> None (any operation) | set of operation names"""
+    """component -> list of (operations | None, job-name prefix | None)"""
     t = {}
     for c in cfg.get('comps', []):
-        if isinstance(c, (list, tuple)): t[c[0]] = (None if c[1] is None else set(c[1]))
-        else: t[c] = (None if cfg.get('ops') is None else set(cfg['ops']))
-    for c in cfg.get('comps_any', []): t[c] = None
+        if isinstance(c, (list, tuple)):
+            t.setdefault(c[0], []).append((None if c[1] is None else set(c[1]), c[2] if len(c) > 2 else None))
+        else:
+            t.setdefault(c, []).append((None if cfg.get('ops') is None else set(cfg['ops']), None))
+    for c in cfg.get('comps_any', []): t.setdefault(c, []).append((None, None))
     return t
+
+def comp_hits(tab, comp, op, job):
+    return any((ops is None or op in ops) and (jp is None or job.startswith(jp) or job.startswith('cand') or job.startswith('replay')) for ops, jp in tab.get(comp, []))
 
 def fails_for(pid, corr):
     tab = comp_table(PROPS[pid])
     found = []
     for name, job in sorted(corr['jobs'].items()):
         for f in job['fails']:
-            hit = [c for c in f['comps'] if c in tab and (tab[c] is None or f.get('op') in tab[c])]
+            hit = [c for c in f['comps'] if comp_hits(tab, c, f.get('op'), name)]
             if not hit: continue
             found.append(dict(job=name, stream=job['stream'], hit=hit, **f))
     return found
@@ -303,7 +312,7 @@ def replay_still_fails(pid, lines, tmpdir):
     path = os.path.join(tmpdir, 'cand.trace')
     open(path, 'w').writelines(lines)
     for prof in ('release', 'debug'):
-        name, stream, outp, err = run_job(('cand-' + prof, prof, ['replay', path]), tmpdir)
+        name, stream, outp, err = run_job(('cand-' + prof, prof, 'cache_trace', ['replay', path]), tmpdir)
         pr = parse_model_output(outp); pr['stream'] = stream
         if fails_for(pid, dict(jobs={'cand': pr})): return True
     return False
@@ -377,7 +386,7 @@ def main():
         tmp = os.path.join(CACHE, 'replay-%d' % os.getpid()); os.makedirs(tmp, exist_ok=True)
         bad = False
         for prof in ('debug', 'release'):
-            name, stream, outp, err = run_job(('replay-' + prof, prof, ['replay', replay]), tmp)
+            name, stream, outp, err = run_job(('replay-' + prof, prof, 'cache_trace', ['replay', replay]), tmp)
             pr = parse_model_output(outp); pr['stream'] = stream
             fs = fails_for(pid, dict(jobs={'replay': pr}))
             print('%s: %d steps, %d failing for %s' % (prof, pr['summary'].get('steps', 0), len(fs), pid))
@@ -490,7 +499,7 @@ def main():
             traces_validated_against_impl=tot_traces, evaluations=tot_steps, distinct_nontrivial=nontriv,
             rule='one evaluation = one observed step (pre-state, operation, result, post-state) of the real LruCache, checked against the extracted Coq model started from the observed pre-state and against the extracted monitors; distinct = distinct (operation, pre-state entries, limit) triples; non-trivial = pre-state non-empty',
             components_checked={k: v for k, v in sorted(checked.items()) if k in comp_table(cfg)},
-            components_of_this_property={k: (sorted(v) if v else 'all operations') for k, v in comp_table(cfg).items()},
+            components_of_this_property={k: [dict(ops=(sorted(o) if o else 'all'), jobs=(j or 'all')) for o, j in v] for k, v in comp_table(cfg).items()},
             operation_histogram=ophist, input_distribution=dist,
             jobs=sorted(corr['jobs'].keys()), correspondence_cached=corr.get('cached', False),
             samples=samples, exhaustive=False),
